@@ -27,9 +27,13 @@ def Faithful (cfg : Cfg) : Prop :=
     answers a damaged input with an error or the original, the wrapper does too. -/
 def Holds (cfg : Cfg) : Prop :=
   Faithful cfg ∧
-  ∀ (lib : Lib) (a : Alg) (orig c : Bytes),
+  (∀ (lib : Lib) (a : Alg) (orig c : Bytes),
     (libDecode lib a c = .err ∨ libDecode lib a c = .ok orig) →
-    (decompress cfg lib a c = .err ∨ decompress cfg lib a c = .ok orig)
+    (decompress cfg lib a c = .err ∨ decompress cfg lib a c = .ok orig)) ∧
+  -- round trip: relative to a library that decodes what it encoded, decompressing the
+  -- compressed form returns the input exactly (every input, every algorithm)
+  (∀ (enc : Enc) (lib : Lib), LibRoundTrips enc lib → ∀ (a : Alg) (x c : Bytes),
+    compress enc a x = .ok c → decompress cfg lib a c = .ok x)
 
 theorem faithful_of_allPropagate (cfg : Cfg) (h : cfg.allPropagate = true) : Faithful cfg := by
   simp only [Cfg.allPropagate, Bool.and_eq_true, beq_iff_eq] at h
@@ -46,15 +50,31 @@ theorem faithful_of_allPropagate (cfg : Cfg) (h : cfg.allPropagate = true) : Fai
 
 theorem holds_of_allPropagate (cfg : Cfg) (h : cfg.allPropagate = true) : Holds cfg := by
   have hf := faithful_of_allPropagate cfg h
-  refine ⟨hf, ?_⟩
-  intro lib a orig c hl
-  rcases hl with hl | hl
-  · exact Or.inl ((hf lib a c).1 hl)
-  · exact Or.inr ((hf lib a c).2 orig hl)
+  refine ⟨hf, ?_, ?_⟩
+  · intro lib a orig c hl
+    rcases hl with hl | hl
+    · exact Or.inl ((hf lib a c).1 hl)
+    · exact Or.inr ((hf lib a c).2 orig hl)
+  · intro enc lib hrt a x c hc
+    have he : enc a x = .ok c := by
+      unfold compress at hc
+      cases h' : enc a x with
+      | ok c' => simp [h'] at hc; exact hc ▸ rfl
+      | err => simp [h'] at hc
+    exact (hf lib a c).2 x (hrt a x c he)
 
 /-- Non-vacuity: a configuration where every site propagates exists (the repaired code). -/
 def good : Cfg := ⟨.propagates, .propagates, .propagates, .propagates, .propagates⟩
 example : good.allPropagate = true := by decide
+
+/-- Non-vacuity of the round-trip clause: a (store-only) library that decodes what it encoded. -/
+def idEnc : Enc := fun _ x => .ok x
+def idLib : Lib := ⟨fun _ => true, fun c => .ok c, fun c => .ok c, fun c => .ok c, fun c => .ok c⟩
+example : LibRoundTrips idEnc idLib := by
+  intro a x c h
+  simp only [idEnc, LibRes.ok.injEq] at h
+  subst h
+  cases a <;> simp [libDecode, idLib]
 
 /-! ### Witnesses: any swallowing site makes the wrapper hide an error -/
 
